@@ -36,7 +36,7 @@ type pool struct {
 	plugins []*rt.Plugin // ascending index
 }
 
-func newPool(base string, idx []string, regOrder []int, twins bool) (*pool, error) {
+func newPool(base string, idx []string, regOrder []int, twins bool, events func(k int) []string) (*pool, error) {
 	// time-outs are not under test in this driver: a scripted plugin that is merely slow under load (race
 	// detector, concurrent callers, a busy machine) must not be dropped by the runtime
 	adaptation.SetPluginRegistrationTimeout(60 * time.Second)
@@ -51,7 +51,11 @@ func newPool(base string, idx []string, regOrder []int, twins bool) (*pool, erro
 		if twins {
 			name = "twin" // every instance registers under the same index and name
 		}
-		pl, err := r.AddPlugin(idx[k], name)
+		var ev []string
+		if events != nil {
+			ev = events(k)
+		}
+		pl, err := r.AddPlugin(idx[k], name, ev...)
 		if err != nil {
 			r.Close()
 			return nil, err
@@ -429,14 +433,23 @@ func (g *G) planUpdate(stream string, id string, poolSize int, kind Item) *Case 
 	return c
 }
 
-func (g *G) planStop(stream string, id string, poolSize int) *Case {
+func (g *G) planStop(stream string, id string, poolSize int, kind Item) *Case {
 	n := 1 + g.r.Intn(poolSize)
+	if strings.HasPrefix(stream, "scollide") && n < 2 {
+		n = 2
+	}
 	c := &Case{Kind: "stop", Stream: stream, Container: &nm.Container{ID: id}, Plugins: g.subset(poolSize, n)}
 	g.echoC, g.echoRes = nil, nil
 	p := newPlanner(g, n)
 	targets := []string{id, "o1", "o2", ""}
 	if stream == "sdisjoint" {
 		p.dealDisjoint(false, targets, 0)
+	} else if strings.HasPrefix(stream, "scollide") {
+		// a planned collision inside a stop request: on the stopped container or on a third party
+		p.dealDisjoint(false, targets, 0)
+		j := 1 + g.r.Intn(n-1)
+		i := g.r.Intn(j)
+		_, c.Note = p.collide(kind, i, j, 0, targets[g.r.Intn(len(targets))])
 	} else {
 		for who := 0; who < n; who++ {
 			if g.r.Intn(2) == 0 {
@@ -475,23 +488,41 @@ func driveAdapt(c *hx.Ctx) error {
 	for i, v := range nums {
 		idxB[i] = fmt.Sprintf("%02d", v)
 	}
-	pA, err := newPool(base, idxA, []int{0, 1, 2, 3, 4, 5}, false)
+	pA, err := newPool(base, idxA, []int{0, 1, 2, 3, 4, 5}, false, nil)
 	if err != nil {
 		return err
 	}
 	defer pA.rt.Close()
-	pB, err := newPool(base, idxB, g.r.Perm(poolSize), false)
+	pB, err := newPool(base, idxB, g.r.Perm(poolSize), false, nil)
 	if err != nil {
 		return err
 	}
 	defer pB.rt.Close()
 	// six instances registered under one and the same index and name: they are six plugins all the same
-	pC, err := newPool(base, []string{"30", "30", "30", "30", "30", "30"}, []int{0, 1, 2, 3, 4, 5}, true)
+	pC, err := newPool(base, []string{"30", "30", "30", "30", "30", "30"}, []int{0, 1, 2, 3, 4, 5}, true, nil)
 	if err != nil {
 		return err
 	}
 	defer pC.rt.Close()
-	pools := []*pool{pA, pB, pC}
+	// plugins that are NOT subscribed to update requests (the first one is): creation and stop requests only
+	pD, err := newPool(base, []string{"15", "25", "35", "45", "55", "65"}, []int{0, 1, 2, 3, 4, 5}, false, func(k int) []string {
+		if k == 0 {
+			return []string{"RunPodSandbox", "CreateContainer", "UpdateContainer", "StopContainer"}
+		}
+		return []string{"RunPodSandbox", "CreateContainer", "StopContainer"}
+	})
+	if err != nil {
+		return err
+	}
+	defer pD.rt.Close()
+	// no plugin at all
+	pE, err := newPool(base, nil, nil, false, nil)
+	if err != nil {
+		return err
+	}
+	defer pE.rt.Close()
+	pools := []*pool{pA, pB, pC, pD, pE}
+	const nGeneral, poolNoUpdate, poolEmpty = 3, 3, 4
 
 	// plan
 	var cases []*Case
@@ -519,6 +550,13 @@ func driveAdapt(c *hx.Ctx) error {
 			for k := 0; k < per; k++ {
 				cases = append(cases, g.planUpdate("ucollide/"+kind.Kind+kind.Key, nextID(), poolSize, kind))
 			}
+			for k := 0; k < (per+1)/2; k++ {
+				cs := g.planStop("scollide/"+kind.Kind+kind.Key, nextID(), poolSize, kind)
+				if k%2 == 0 {
+					cs.Pool = 3 // the pool whose plugins are not subscribed to update requests
+				}
+				cases = append(cases, cs)
+			}
 		}
 	}
 	for k := 0; k < c.Pick(250, 4000); k++ {
@@ -543,10 +581,37 @@ func driveAdapt(c *hx.Ctx) error {
 		cases = append(cases, g.planUpdate("uignore", nextID(), poolSize, Item{}))
 	}
 	for k := 0; k < c.Pick(60, 800); k++ {
-		cases = append(cases, g.planStop("sdisjoint", nextID(), poolSize))
+		cases = append(cases, g.planStop("sdisjoint", nextID(), poolSize, Item{}))
 	}
 	for k := 0; k < c.Pick(40, 600); k++ {
-		cases = append(cases, g.planStop("smixed", nextID(), poolSize))
+		cases = append(cases, g.planStop("smixed", nextID(), poolSize, Item{}))
+	}
+
+	// requests that reach nobody: the reply is the empty one, an update request still ends with its own entry
+	for k := 0; k < c.Pick(6, 60); k++ {
+		id := nextID()
+		cs := &Case{Kind: []string{"create", "update", "stop"}[k%3], Stream: "noplugins", Pool: poolEmpty}
+		switch cs.Kind {
+		case "create":
+			cs.Container = g.container(id, false)
+		default:
+			cs.Container = &nm.Container{ID: id}
+		}
+		if cs.Kind == "update" {
+			cs.ReqRes = []*nm.Res{{}, g.res(0, 3, true), g.res(0, 2, false)}[(k/3)%3]
+		}
+		cases = append(cases, cs)
+	}
+	poolOf := func(i int) *pool {
+		cs := cases[i]
+		if cs.Pool > 0 {
+			return pools[cs.Pool]
+		}
+		// every fourth creation / stop case runs on the pool whose plugins are not subscribed to update requests
+		if cs.Kind != "update" && i%4 == 3 {
+			return pools[poolNoUpdate]
+		}
+		return pools[i%nGeneral]
 	}
 
 	// execute: 8 concurrent callers per pool (requests in flight concurrently)
@@ -563,7 +628,7 @@ func driveAdapt(c *hx.Ctx) error {
 		go func(w int) {
 			defer wg.Done()
 			for i := range work {
-				if err := pools[i%len(pools)].execute(cases[i]); err != nil {
+				if err := poolOf(i).execute(cases[i]); err != nil {
 					emu.Lock()
 					if firstErr == nil {
 						firstErr = fmt.Errorf("case %d (%s): %w", i, cases[i].Stream, err)
@@ -619,10 +684,23 @@ func driveAdapt(c *hx.Ctx) error {
 	for _, kind := range collisionKinds() {
 		want := subjectOf(kind)
 		if c.Stats.Distribution["conflict."+want] == 0 {
-			c.HarnessError("collision stream for %v produced no conflict (%q)", kind, want)
+			// either the generator lost its shape or the tree under check reports no conflict for this kind at
+			// all: the first planned collision of the kind decides (two plugins set the same item: C01)
+			var witness *Case
+			for _, cs := range cases {
+				if (cs.Stream == "collide/"+kind.Kind+kind.Key || cs.Stream == "ucollide/"+kind.Kind+kind.Key || cs.Stream == "scollide/"+kind.Kind+kind.Key) && cs.Err == 0 && cs.Note != "skip" {
+					witness = cs
+					break
+				}
+			}
+			if witness != nil {
+				c.ImplFail("adapt", fmt.Sprintf("no collision on %s was reported as a conflict (%q never named in an error)", kind, want), witness)
+			} else {
+				c.HarnessError("collision stream for %v produced no conflict (%q)", kind, want)
+			}
 		}
 	}
-	c.Stats.Rule = "adapt: requests against a real Adaptation with 6 scripted stub plugins per pool (three pools: ascending indices; random indices registered in random order; six instances registered under one and the same index and name, invocation order measured), 8 concurrent callers; streams: per-item-kind collisions (plain / remove-then-set / lone removal in between / set-before-marker / take-over by a plugin in between then plain set; echo values equal to the current value and explicit zeros; via adjustment or via updates of a third party), disjoint writers, removals of original items, mixed random, self-update, ignore-failure, update requests with pre-populated resources, stop requests; a case is non-trivial when some plugin answers with an adjustment or update; distinct by full input"
+	c.Stats.Rule = "adapt: requests against a real Adaptation with 6 scripted stub plugins per pool (five pools: ascending indices; random indices registered in random order; six instances registered under one and the same index and name, invocation order measured; plugins not subscribed to update requests, for creation and stop requests; no plugin at all), 8 concurrent callers; streams: per-item-kind collisions (plain / remove-then-set / lone removal in between / set-before-marker / take-over by a plugin in between then plain set; echo values equal to the current value and explicit zeros; via adjustment or via updates of a third party), disjoint writers, removals of original items, mixed random, self-update, ignore-failure, update requests with pre-populated resources, stop requests incl. planned collisions per updatable kind (half of them on the pool not subscribed to update requests), requests that reach no plugin; a case is non-trivial when some plugin answers with an adjustment or update; distinct by full input"
 	return nil
 }
 
